@@ -70,8 +70,9 @@ ExactWhenUntruncated(ln) ==
 
 \* Eckart-Young on an integer spectrum: the distance to the (de-renormalised) product is the
 \* discarded weight and its rank is the kept count
+Exactish(ln) == ln.method \notin IterMethods \/ Lossless(ln)
 BestApprox(ln) ==
-  Ret(ln) /\ IsSVD(ln) /\ ln.hasL /\ ln.hasR => ln.d2 = Err2(ln.s, KExp(ln)) /\ ln.rk
+  Ret(ln) /\ IsSVD(ln) /\ Exactish(ln) /\ ln.hasL /\ ln.hasR => ln.d2 = Err2(ln.s, KExp(ln)) /\ ln.rk
 
 \* info['error'] is reported by svd / svd:eig and equals the actual Frobenius distance
 ErrorHonest(ln) ==
@@ -82,19 +83,24 @@ ErrorHonest(ln) ==
 \* where the values went: squared singular values of each output, s^0 / s^1 / s^2
 PowSeq(s, k, p) == [i \in 1..k |-> IF p = 0 THEN 1 ELSE IF p = 1 THEN s[i] ELSE s[i] * s[i]]
 ValuesWhereRequested(ln) ==
-  Ret(ln) /\ ln.method # "lu" /\ (RPow_(ln) = 0 \/ ~Truncates(ln)) /\ ln.k = BondExp(ln) /\ ln.k <= D(ln) =>
+  Ret(ln) /\ ln.method # "lu" /\ Exactish(ln) /\ (RPow_(ln) = 0 \/ ~Truncates(ln)) /\ ln.k = BondExp(ln) /\ ln.k <= D(ln) =>
      /\ ln.hasL /\ Sh(ln).hasL /\ (Sh(ln).pL > 0 \/ ln.method \notin PolarMethods) => ln.svL2 = PowSeq(ln.s, ln.k, Sh(ln).pL)
      /\ ln.hasS /\ Sh(ln).hasS => ln.svS2 = PowSeq(ln.s, ln.k, 2)
      /\ ln.hasR /\ Sh(ln).hasR /\ (Sh(ln).pR > 0 \/ ln.method \notin PolarMethods) => ln.svR2 = PowSeq(ln.s, ln.k, Sh(ln).pR)
 
 \* renormalisation: sum of kept'^p equals the sum of all^p for the requested power
 RenormLaw(ln) ==
-  Ret(ln) /\ IsSVD(ln) /\ RPow_(ln) > 0 /\ Truncates(ln) /\ (ln.hasS \/ (ln.hasL /\ ln.hasR)) =>
+  Ret(ln) /\ IsSVD(ln) /\ Exactish(ln) /\ RPow_(ln) > 0 /\ Truncates(ln) /\ (ln.hasS \/ (ln.hasL /\ ln.hasR)) =>
      IF RPow_(ln) = 1 THEN ln.sum1 = Tot(ln.s, 1) ELSE ln.sum2 = Tot(ln.s, 2)
 
 \* a factor the documentation calls isometric is isometric
+\* (a polar factor U can only be an isometry on the side the shape allows: A = U P needs m >= n,
+\*  A = P U needs m <= n; the other orientation is judged through the isometry *claim* only)
+PolarOriented(ln) == /\ ln.method = "polar_right" => ln.m >= ln.n
+                     /\ ln.method = "polar_left" => ln.m <= ln.n
 DocIsometryTrue(ln) ==
-  Ret(ln) => /\ (ln.hasL /\ Sh(ln).hasL /\ Sh(ln).isoL) => ln.isoL
+  Ret(ln) /\ PolarOriented(ln) =>
+             /\ (ln.hasL /\ Sh(ln).hasL /\ Sh(ln).isoL) => ln.isoL
              /\ (ln.hasR /\ Sh(ln).hasR /\ Sh(ln).isoR) => ln.isoR
 
 \* a factor reported as isometric (left_inds of the returned tensor) is isometric
